@@ -122,6 +122,13 @@ def run_pt(ctx, case):
             ctx.require(ref.min_eig(out) > -1e-10, 'reduced state PSD')
         if kind == 'product':
             ctx.close(out, ref.kron(*[parts[i] for i in keep]), 1e-10, 'product state reduces to the product of kept factors')
+    # results handed out earlier are not overwritten by a later call with the same dims / keep-set / dtype (another operator)
+    other = rho_c[::-1, ::-1].copy() * 1
+    for keep in subsets[::3]:
+        r1 = nq.utils.partial_trace(rho_c, tuple(dims), set(keep))
+        r1c = np.array(r1, copy=True)
+        nq.utils.partial_trace(other, tuple(dims), set(keep))
+        ctx.close(r1, r1c, 0, 'a partial trace returned earlier is not overwritten by a later call')
     # two steps = one step
     for keep2 in subsets:
         if len(keep2) < 2:
